@@ -261,7 +261,7 @@ impl MithrilCertifierService {
     //@ rewrite /async fn/ => /fn/
     //@ rewrite /\.await/ => //
     //@ rewrite /StdResult<Option<OpenMessageWithSingleSignaturesRecord>>/ => /Result<Option<OpenMessageWithSingleSignaturesRecord>, StdError>/
-    //@ rewrite? /(?s)(?:debug|info|warn|trace)!\(.*?\);[ \t]*\n/ => //
+    //@ rewrite? /(?s)(?:slog::)?(?:debug|info|warn|trace|error)!\(.*?\);[ \t]*\n/ => //
     //@ rewrite? /\s*\.with_context\(\|\| format!\("[^"]*"\)\)/ => //
     //@ spec ensures ret is Ok ==> ret->Ok_0 == open_message_for(&self.open_message_repository, signed_entity_type)
     //@end
@@ -270,7 +270,7 @@ impl MithrilCertifierService {
     //@ rewrite /async fn/ => /fn/
     //@ rewrite /\.await/ => //
     //@ rewrite /StdResult<OpenMessage>/ => /Result<OpenMessage, StdError>/
-    //@ rewrite? /(?s)(?:debug|info|warn|trace)!\(.*?\);[ \t]*\n/ => //
+    //@ rewrite? /(?s)(?:slog::)?(?:debug|info|warn|trace|error)!\(.*?\);[ \t]*\n/ => //
     //@ rewrite? /(?s)\s*\.with_context\(\|\|\s*\{\s*format!\(.*?\)\s*\}\)/ => //
     //@ rewrite /Ok\(open_message\.into\(\)\)/ => /Ok(open_message_of_plain(open_message))/
     //@ spec ensures ret is Ok ==> exists|rec: OpenMessageRecord| #[trigger] open_message_created(&self.open_message_repository, entity_signing_epoch(signed_entity_type), signed_entity_type, protocol_message, rec)
@@ -281,7 +281,7 @@ impl MithrilCertifierService {
     //@ rewrite /async fn/ => /fn/
     //@ rewrite /\.await/ => //
     //@ rewrite /StdResult<Option<OpenMessage>>/ => /Result<Option<OpenMessage>, StdError>/
-    //@ rewrite? /(?s)(?:debug|info|warn|trace)!\(.*?\);[ \t]*\n/ => //
+    //@ rewrite? /(?s)(?:slog::)?(?:debug|info|warn|trace|error)!\(.*?\);[ \t]*\n/ => //
     //@ rewrite? /\s*\.with_context\(\|\| "[^"]*"\)/ => //
     //@ rewrite /Ok\(open_message_record\.map\(\|record\| record\.into\(\)\)\)/ => /Ok(map_open_message_of_plain(open_message_record))/
     //@ spec ensures ret is Ok ==> ({
@@ -296,7 +296,7 @@ impl MithrilCertifierService {
     //@ rewrite /async fn/ => /fn/
     //@ rewrite /\.await/ => //
     //@ rewrite /StdResult<SignatureRegistrationStatus>/ => /Result<SignatureRegistrationStatus, StdError>/
-    //@ rewrite? /(?s)(?:debug|info|warn|trace)!\(.*?\);[ \t]*\n/ => //
+    //@ rewrite? /(?s)(?:slog::)?(?:debug|info|warn|trace|error)!\(.*?\);[ \t]*\n/ => //
     //@ rewrite? /\s*\.with_context\(\|\| format!\("[^"]*"\)\)/ => //
     //@ rewrite /(?s)\.ok_or_else\(\|\|\s*\{\s*CertifierServiceError::NotFound\(signed_entity_type\.clone\(\)\)\s*\}\)\?/ => /.ok_or(StdError {})?/
     //@ rewrite /return Err\(CertifierServiceError::(\w+)\(signed_entity_type\.clone\(\)\)\.into\(\)\);/ => /return Err(StdError {});/
@@ -317,7 +317,7 @@ impl MithrilCertifierService {
     //@ rewrite /self\.epoch_service\.read\(\)\.await/ => /&self.epoch_service/
     //@ rewrite /\.await/ => //
     //@ rewrite /StdResult<Option<Certificate>>/ => /Result<Option<Certificate>, StdError>/
-    //@ rewrite? /(?s)(?:debug|info|warn|trace)!\(.*?\);[ \t]*\n/ => //
+    //@ rewrite? /(?s)(?:slog::)?(?:debug|info|warn|trace|error)!\(.*?\);[ \t]*\n/ => //
     //@ rewrite? /(?s)\s*\.with_context\(\|\|\s*\{\s*format!\(.*?\)\s*\}\)/ => //
     //@ rewrite? /\s*\.with_context\(\|\| format!\("[^"]*"\)\)/ => //
     //@ rewrite? /\s*\.with_context\(\|\| "[^"]*"\)/ => //
